@@ -88,17 +88,18 @@ Qed.
 Lemma dbk_step_In c f l out k x : x <> [] ->
   (In x (dbk_step c f l out k) <-> In x out \/ k = encode_key c x).
 Proof.
-  intros Hx. unfold dbk_step.
+  intros Hx. unfold dbk_step, dbk_step_gen.
   assert (Happ : forall y, In x (out ++ [y]) <-> In x out \/ y = x).
   { intros y. rewrite in_app_iff. cbn [In]. tauto. }
   destruct (f && lex_ltb k (prefix c)) eqn:B1.
   - apply andb_true_iff in B1 as [_ B1]. apply lex_ltb_lt in B1. rewrite Happ. split; [intros [H|H]; [auto|congruence]|].
     intros [H|H]; [auto|]. exfalso. subst k. exact (lex_lt_not_le _ _ B1 (prefix_le_enc c x)).
-  - destruct (l && (nilb k || lex_leb (end_key c) k)) eqn:B2.
+  - destruct (l && (nilb k || lex_leb (end_key c) k || (true && negb (has_prefix (prefix c) k) && lex_ltb (prefix c) k))) eqn:B2.
     + apply andb_true_iff in B2 as [_ B2]. rewrite Happ. split; [intros [H|H]; [auto|congruence]|].
-      intros [H|H]; [auto|]. exfalso. subst k. apply orb_true_iff in B2 as [B2|B2].
+      intros [H|H]; [auto|]. exfalso. subst k. apply orb_true_iff in B2 as [B2|B2]; [apply orb_true_iff in B2 as [B2|B2]|].
       * unfold encode_key in B2. rewrite nilb_app_ne in B2 by apply prefix_ne. discriminate.
       * apply lex_leb_le in B2. exact (lex_lt_not_le _ _ (enc_lt_end c x) B2).
+      * unfold encode_key in B2 at 1. rewrite has_prefix_app in B2. discriminate.
     + destruct (has_prefix (prefix c) k) eqn:Hp.
       * pose proof (has_prefix_inv _ _ Hp) as E. set (raw := skipn (length (prefix c)) k) in *.
         assert (Heq : k = encode_key c x <-> raw = x).
@@ -113,7 +114,7 @@ Qed.
 Lemma dbk_In c x : x <> [] -> forall rest f out,
   In x (dbk c f out rest) <-> In x out \/ In (encode_key c x) rest.
 Proof.
-  intros Hx. induction rest as [|k r IH]; intros f out; cbn [dbk In]; [tauto|].
+  intros Hx. unfold dbk. induction rest as [|k r IH]; intros f out; cbn [dbk_gen In]; [tauto|]. fold (dbk_step c f (nilb_l r) out k).
   rewrite IH, (dbk_step_In c f (nilb_l r) out k x Hx). intuition congruence.
 Qed.
 
@@ -148,13 +149,13 @@ Qed.
 
 Lemma dbk_step_keeps_head c f l out k y t : out = y :: t -> exists t', dbk_step c f l out k = y :: t'.
 Proof.
-  intros ->. unfold dbk_step.
+  intros ->. unfold dbk_step, dbk_step_gen.
   destruct (f && _); [eexists; reflexivity|]. destruct (l && _); [eexists; reflexivity|].
   destruct (has_prefix _ _); [|eexists; reflexivity]. destruct (_ && _); eexists; reflexivity.
 Qed.
 Lemma dbk_keeps_head c : forall rest f y t, exists t', dbk c f (y :: t) rest = y :: t'.
 Proof.
-  induction rest as [|k r IH]; intros f y t; cbn [dbk]; [eexists; reflexivity|].
+  unfold dbk. induction rest as [|k r IH]; intros f y t; cbn [dbk_gen]; [eexists; reflexivity|]. fold (dbk_step c f (nilb_l r) (y :: t) k).
   destruct (dbk_step_keeps_head c f (nilb_l r) (y :: t) k y t eq_refl) as (t' & ->). apply IH.
 Qed.
 
@@ -162,12 +163,12 @@ Qed.
 Lemma bucket_first c k0 rest kn s e : rest <> [] -> decode_range c k0 kn = ROk s e ->
   exists t, dbk c true [] (k0 :: rest) = s :: t.
 Proof.
-  intros Hr D. cbn [dbk]. replace (nilb_l rest) with false by (destruct rest; [congruence|reflexivity]).
-  assert (S1 : dbk_step c true false [] k0 = [s]).
+  intros Hr D. unfold dbk. cbn [dbk_gen]. fold (dbk c). replace (nilb_l rest) with false by (destruct rest; [congruence|reflexivity]).
+  assert (S1 : dbk_step_gen true c true false [] k0 = [s]).
   { unfold decode_range, decode_range_gen in D.
     destruct (lex_leb (end_key c) k0 || _) eqn:T1; [discriminate|].
     destruct (true && negb (has_prefix (prefix c) k0) && lex_ltb (prefix c) k0) eqn:T2; [discriminate|].
-    injection D as <- _. unfold dbk_step, strip_or_empty. cbn [andb app head_is_empty].
+    injection D as <- _. unfold dbk_step_gen, strip_or_empty. cbn [andb app head_is_empty].
     destruct (lex_ltb k0 (prefix c)) eqn:L.
     - replace (has_prefix (prefix c) k0) with false; [reflexivity|].
       symmetry. destruct (has_prefix (prefix c) k0) eqn:Hp; [|reflexivity]. exfalso.
@@ -183,20 +184,19 @@ Proof.
   rewrite S1. apply dbk_keeps_head.
 Qed.
 
-(* the last boundary of the result is the decoded region end, unless the region end is one of the short
-   strings strictly between prefix and endKey that lack the prefix (same class as F14) *)
+(* the last boundary of the result is the decoded region end *)
 Lemma bucket_last c : forall rest f out k0 s e, rest <> [] ->
-  decode_range c k0 (last rest []) = ROk s e -> ~ short_start c (last rest []) ->
+  decode_range c k0 (last rest []) = ROk s e ->
   last (dbk c f out rest) [0] = e.
 Proof.
-  induction rest as [|k r IH]; intros f out k0 s e Hr D Hns; [congruence|].
+  unfold dbk. induction rest as [|k r IH]; intros f out k0 s e Hr D; [congruence|].
   destruct r as [|k' r'].
-  - cbn [last dbk nilb_l] in *.
+  - cbn [last dbk_gen nilb_l] in *.
     unfold decode_range, decode_range_gen in D.
     destruct (lex_leb (end_key c) k0 || (negb (nilb k) && lex_leb k (prefix c))) eqn:T1; [discriminate|].
     destruct (true && _ && _); [discriminate|]. injection D as _ <-.
     apply orb_false_iff in T1 as [_ T1].
-    unfold dbk_step, strip_or_empty. cbn [andb].
+    unfold dbk_step_gen, strip_or_empty. cbn [andb].
     destruct (nilb k) eqn:Nk.
     + apply nilb_true in Nk; subst k. cbn [orb has_prefix].
       replace (has_prefix (prefix c) []) with false by (pose proof (prefix_ne c); destruct (prefix c); [congruence|reflexivity]).
@@ -207,24 +207,103 @@ Proof.
           exfalso. exact (lex_lt_not_le _ _ L (ltac:(unfold lex_le, lex_lt in *; congruence))). }
       rewrite andb_false_r. cbn [orb].
       destruct (lex_leb (end_key c) k) eqn:G.
-      * apply lex_leb_le in G. rewrite (end_le_no_prefix c k G), last_last. reflexivity.
+      * apply lex_leb_le in G. rewrite (end_le_no_prefix c k G). cbn [orb]. rewrite last_last. reflexivity.
       * destruct (has_prefix (prefix c) k) eqn:Hp.
-        -- pose proof (has_prefix_inv _ _ Hp) as E.
+        -- pose proof (has_prefix_inv _ _ Hp) as E. cbn [negb andb orb].
            replace (nilb (skipn (length (prefix c)) k)) with false; [cbn [andb]; rewrite last_last; reflexivity|].
            symmetry. apply nilb_false. intros E0. rewrite E0, app_nil_r in E. rewrite E in T1.
            unfold lex_lt in T1. rewrite lex_cmp_refl in T1. discriminate.
-        -- exfalso. apply Hns. apply lex_leb_false in G. repeat split; assumption.
-  - cbn [dbk]. change (last (k :: k' :: r') []) with (last (k' :: r') []) in *.
-    apply (IH false _ k0 s e); [discriminate|exact D|exact Hns].
+        -- (* a short key above the keyspace and below endKey: the unbounded end since bbcfa45 *)
+           apply lex_ltb_lt in T1. rewrite T1. cbn [negb andb orb]. rewrite last_last. reflexivity.
+  - cbn [dbk_gen]. change (last (k :: k' :: r') []) with (last (k' :: r') []) in *.
+    apply (IH false _ k0 s e); [discriminate|exact D].
 Qed.
 
-Lemma bucket_last_refuted :
-  ~ (forall c rest k0 s e, rest <> [] -> decode_range c k0 (last rest []) = ROk s e ->
-       last (dbk c true [] (k0 :: rest)) [0] = e).
+(* regression witness: the loop before bbcfa45 lost the unbounded end for keyspace 255 (raw) and the buckets
+   [..a, ..m, 72 00 01] *)
+Lemma bucket_last_before_repair :
+  decode_range (mkks Raw 255) [114;0;0;255;97] [114;0;1] = ROk [97] [] /\
+  dbk_gen false (mkks Raw 255) true [] [[114;0;0;255;97]; [114;0;0;255;109]; [114;0;1]] = [[97]; [109]] /\
+  dbk (mkks Raw 255) true [] [[114;0;0;255;97]; [114;0;0;255;109]; [114;0;1]] = [[97]; [109]; []].
+Proof. repeat split; vm_compute; reflexivity. Qed.
+
+(* ---------- a scan answer ---------- *)
+Definition holds_key (c : ks) (r : list N * list N) : bool :=
+  match decode_range c (fst r) (snd r) with ROk _ _ => true | _ => false end.
+Definition clip_region (c : ks) (r : list N * list N) : list (list N * list N) :=
+  match decode_range c (fst r) (snd r) with ROk s' e' => [(s', e')] | _ => [] end.
+Definition menc_region (r : list N * list N) := (mem_enc (fst r), mem_enc (snd r)).
+
+Lemma decode_range_no_decerr c s e : decode_range c s e <> RDecodeErr.
+Proof. unfold decode_range, decode_range_gen. destruct (_ || _); [discriminate|]. destruct (_ && _); discriminate. Qed.
+
+(* the decoded scan answer is, in order, the clipped form of exactly the regions that decode (= hold a key) *)
+Lemma scan_exact c phys :
+  decode_scan c (map menc_region phys) = Some (flat_map (clip_region c) phys) /\
+  flat_map (clip_region c) phys = flat_map (clip_region c) (filter (holds_key c) phys).
 Proof.
-  intros H. specialize (H (mkks Raw 255) [[114;0;0;255;109]; [114;0;1]] [114;0;0;255;97] [97] []).
-  assert (A : [[114;0;0;255;109]; [114;0;1]] <> []) by discriminate.
-  specialize (H A). vm_compute in H. specialize (H eq_refl). discriminate.
+  induction phys as [|[s e] r [IH1 IH2]]; [split; reflexivity|].
+  pose proof (decode_range_no_decerr c s e) as N.
+  destruct (decode_range c s e) as [s' e'| |] eqn:D; [| |congruence].
+  - assert (C : clip_region c (s, e) = [(s', e')]) by (unfold clip_region; cbn [fst snd]; rewrite D; reflexivity).
+    assert (H : holds_key c (s, e) = true) by (unfold holds_key; cbn [fst snd]; rewrite D; reflexivity).
+    cbn [map flat_map filter decode_scan]. unfold menc_region at 1. cbn [fst snd].
+    rewrite decode_region_range_enc, D, IH1, H, C. cbn [flat_map app]. rewrite C. cbn [app].
+    split; [reflexivity|]. f_equal. exact IH2.
+  - assert (C : clip_region c (s, e) = []) by (unfold clip_region; cbn [fst snd]; rewrite D; reflexivity).
+    assert (H : holds_key c (s, e) = false) by (unfold holds_key; cbn [fst snd]; rewrite D; reflexivity).
+    cbn [map flat_map filter decode_scan]. unfold menc_region at 1. cbn [fst snd].
+    rewrite decode_region_range_enc, D, IH1, H, C. cbn [app]. split; [reflexivity|exact IH2].
+Qed.
+
+Lemma ok_nonempty c s e s' e' : (e = [] \/ lex_lt s e) -> decode_range c s e = ROk s' e' -> in_range s' e' s'.
+Proof.
+  intros Hp D. unfold decode_range, decode_range_gen in D.
+  destruct (lex_leb (end_key c) s || (negb (nilb e) && lex_leb e (prefix c))) eqn:T1; [discriminate|].
+  destruct (true && negb (has_prefix (prefix c) s) && lex_ltb (prefix c) s) eqn:T2; [discriminate|].
+  injection D as <- <-. split; [unfold lex_le; rewrite lex_cmp_refl; discriminate|].
+  apply orb_false_iff in T1 as [T1a T1b].
+  unfold strip_or_empty. destruct (has_prefix (prefix c) e) eqn:He; [|left; reflexivity].
+  right. pose proof (has_prefix_inv _ _ He) as Ee. set (e0 := skipn (length (prefix c)) e) in *.
+  assert (Hne : e <> []) by (rewrite Ee; intros E; apply app_eq_nil in E as [E _]; exact (prefix_ne c E)).
+  destruct Hp as [Hp|Hp]; [contradiction|].
+  destruct (has_prefix (prefix c) s) eqn:Hs.
+  - pose proof (has_prefix_inv _ _ Hs) as Es. rewrite Es, Ee in Hp.
+    fold (encode_key c (skipn (length (prefix c)) s)) in Hp. fold (encode_key c e0) in Hp.
+    unfold lex_lt in *. rewrite encode_key_cmp in Hp. exact Hp.
+  - apply nilb_false in Hne. rewrite Hne in T1b. cbn [negb andb] in T1b. apply lex_leb_false in T1b.
+    rewrite Ee in T1b. unfold lex_lt in *. rewrite <- (app_nil_r (prefix c)) in T1b at 1.
+    rewrite lex_cmp_app_same in T1b. exact T1b.
+Qed.
+
+(* for a proper region, "decodes" means exactly "holds a key of the keyspace" *)
+Lemma holds_key_spec c s e : (e = [] \/ lex_lt s e) ->
+  (holds_key c (s, e) = true <-> exists k, in_range s e (encode_key c k)).
+Proof.
+  intros Hp. unfold holds_key. cbn [fst snd]. pose proof (decode_range_clip c s e) as C. split.
+  - destruct (decode_range c s e) as [s' e'| |] eqn:D; try discriminate. intros _. cbn [clip_spec] in C.
+    exists s'. apply C. eapply ok_nonempty; eassumption.
+  - intros (k & Hk). destruct (decode_range c s e) as [s' e'| |]; cbn [clip_spec] in C; [reflexivity| |contradiction].
+    exfalso. exact (C k Hk).
+Qed.
+
+(* a proper region lying between two keys of the keyspace holds a key of the keyspace (its own start): in a chain of
+   regions the kept ones are consecutive, so the decoded answer is contiguous by pd_contiguous *)
+Lemma between_holds c s e k1 k2 : lex_le (encode_key c k1) s -> lex_lt s e -> lex_le e (encode_key c k2) ->
+  exists x, s = encode_key c x /\ in_range s e (encode_key c x).
+Proof.
+  intros H1 H2 H3.
+  assert (Hp : has_prefix (prefix c) s = true).
+  { destruct (has_prefix (prefix c) s) eqn:Hp; [reflexivity|]. exfalso.
+    assert (L : lex_lt (prefix c) s).
+    { pose proof (prefix_le_enc c k1) as P. apply lex_le_cases in P as [E|P].
+      - apply lex_le_cases in H1 as [E1|L1]; [|rewrite E; exact L1].
+        rewrite <- E1, <- E, <- (app_nil_r (prefix c)), has_prefix_app in Hp. discriminate.
+      - eapply lex_lt_le_trans; eassumption. }
+    pose proof (no_prefix_gt _ _ k2 Hp L) as G. fold (encode_key c k2) in G.
+    apply (lex_lt_not_le _ _ (lex_lt_le_trans _ _ _ H2 H3)). unfold lex_le, lex_lt in *. rewrite G. discriminate. }
+  pose proof (has_prefix_inv _ _ Hp) as E. exists (skipn (length (prefix c)) s). fold (encode_key c (skipn (length (prefix c)) s)) in E.
+  split; [exact E|]. rewrite <- E. split; [unfold lex_le; rewrite lex_cmp_refl; discriminate|right; exact H2].
 Qed.
 
 (* ---------- ParseKeyspaceID ---------- *)
